@@ -49,7 +49,7 @@ def main():
         shutil.copy("/verif/known_findings.txt", VDIR)
         if os.path.isdir("/verif/mutants"): pass
         EVBIN = os.path.join(base, "evcheck")
-        shutil.copy("/verif/bin/evcheck", EVBIN)
+        shutil.copy(os.environ.get("EVBIN", "/verif/bin/evcheck"), EVBIN)
         try:
             _main(d)
         finally:
